@@ -288,6 +288,9 @@ template<class It,class T> It fill_n(It a,long m,const T&x){ for(int k=0;k<It::I
 template<class It,class Ot> Ot copy(It a,It b,Ot o){ for(int k=0;k<It::ICAP;k++) if(a!=b){ *o=*a; ++a; ++o; } return o; }
 template<class It,class T> T accumulate(It a,It b,T z){ for(int k=0;k<It::ICAP;k++) if(a!=b){ z=z+*a; ++a; } return z; }
 template<class It> void reverse(It a,It b){ for(int k=0;k<It::ICAP;k++){ if(a!=b){ --b; if(a!=b){ auto t=*a; *a=*b; *b=t; ++a; } } } }
+// <iterator>: in the flat model a move is a copy, so a move iterator is the iterator itself.  The moved-from state of the source elements is
+// NOT represented by this generic definition (a harness that needs it overloads make_move_iterator for its containers, see harness/caps_macro.hpp).
+template<class It> It make_move_iterator(It i){ return i; }
 namespace ranges { template<class It> struct subrange { It b,e; subrange(It b_,It e_):b(b_),e(e_){} It begin()const{return b;} It end()const{return e;} }; }
 }
 // per-harness capacities: specialisations of std::__cap<T>, std::__mcap<K,V>, std::__scap<K> (must precede first use)
